@@ -266,7 +266,7 @@ class InconMachine(StoreMachine):
             elif kd == 'W':
                 ch = [rng.randrange(3), rng.randrange(3), rng.randrange(2)]
             elif kd == 'R':
-                ch = [rng.randrange(3), rng.randrange(4)]
+                ch = [rng.randrange(3), rng.randrange(8)]
             elif kd == 'CYCLE':
                 ch = [rng.randrange(3)]
             elif kd == 'SHIPPED':
@@ -302,13 +302,16 @@ class InconMachine(StoreMachine):
     def write(self, obj, name, cfg):
         obj.write(self.path(name + '.incon'), reset=cfg['reset'])
 
-    def read(self, name, cfg):
+    def read(self, name, cfg, reuse=None):
         nv = cfg['nvar'] if (cfg['nvar'] is not None and cfg['nvar'] > 4) or cfg.get('tell') \
             else None
         # check_blocknames is a documented reader option; all generated names are valid, so it
         # must make no difference (the choice is made per read from the run's aux stream)
         cb = self.ctx.aux_rng.random() < 0.7
         self.ctx.probes['read_check_blocknames_%s' % cb] += 1
+        if reuse is not None:
+            reuse.read(self.path(name + '.incon'), num_variables=nv, check_blocknames=cb)
+            return reuse
         return self.t2.t2incon(self.path(name + '.incon'), num_variables=nv, check_blocknames=cb)
 
     def compare(self, want, got, cfg, what):
@@ -380,7 +383,12 @@ class InconMachine(StoreMachine):
                           {'reset': bool(reset), 'nvar': nvar}, fault)
         elif kind == 'R':
             ni, slot = ch
-            self.do_read(self.pick_name(ni), None if slot == 3 else slot, fault)
+            reuse = None
+            if slot % 8 >= 4 and self.objs:
+                slot = self.pick_slot(slot)
+                reuse = self.objs[slot]
+            self.do_read(self.pick_name(ni), None if slot % 4 == 3 else slot % 4, fault,
+                         reuse=reuse)
         elif kind == 'CYCLE':
             self.do_cycle(self.pick_name(ch[0]))
         elif kind == 'FOREIGN':
